@@ -18,7 +18,8 @@ def all_points(gt) -> List[int]:
 
 
 def model_runahead_limit(gt, pool_points: List[int], pool_names_by_point,
-                         stop: Optional[int]) -> Optional[int]:
+                         stop: Optional[int],
+                         with_future: bool = True) -> Optional[int]:
     """Runahead limit recomputed from a pool snapshot (DESIGN §5 C04).
 
     Only count limits `Pn` (integer cycling)."""
@@ -44,7 +45,10 @@ def model_runahead_limit(gt, pool_points: List[int], pool_names_by_point,
             for a in wfgen.atoms(ar['lhs']):
                 if isinstance(a[2], int) and a[2] > fut:
                     fut = a[2]
-    L += fut
+    if with_future:
+        # upper bound (used to judge releases); readiness claims use the
+        # lower bound without it
+        L += fut
     if stop is not None and L > stop:
         L = stop
     return L
@@ -381,7 +385,8 @@ class C03Progress(Base):
             byp = defaultdict(set)
             for t in pool_snap:
                 byp[int(t['point'])].add(t['name'])
-            L = model_runahead_limit(gt, pts, byp, gtmodel.stop_point(gt))
+            L = model_runahead_limit(gt, pts, byp, gtmodel.stop_point(gt),
+                                     with_future=False)
             for t in pool_snap:
                 if t['name'] not in gt['tasks']:
                     continue
@@ -411,7 +416,8 @@ class C03Progress(Base):
         byp = defaultdict(set)
         for t in pool_snap:
             byp[int(t['point'])].add(t['name'])
-        L = model_runahead_limit(gt, pts, byp, gtmodel.stop_point(gt))
+        L = model_runahead_limit(gt, pts, byp, gtmodel.stop_point(gt),
+                                 with_future=False)
         active_q = Counter()
         for t in pool_snap:
             if t['name'] in gt['tasks'] and (t['status'] in ACTIVE
